@@ -247,3 +247,16 @@ fn c04_8g_volume_and_panning_applied() {
     kani::cover!(!silent);
     core::mem::forget(info); core::mem::forget(s); core::mem::forget(h);
 }
+
+// @ob id=C03.3a strength=complete tier=quick fn=sound/static_sound/sound.rs::Shared::{set_state,state}
+// @req every one of the seven playback states
+// @ens state(set_state(s)) == s and never panics (the handle reports exactly what the sound stored)
+#[kani::proof]
+#[kani::unwind(3)]
+fn c03_3a_static_shared_state_roundtrip() {
+    let sh = Shared { state: AtomicU8::new(0), position: AtomicU64::new(0) };
+    let s = match kani::any::<u8>() % 7 { 0 => PlaybackState::Playing, 1 => PlaybackState::Pausing, 2 => PlaybackState::Paused, 3 => PlaybackState::WaitingToResume, 4 => PlaybackState::Resuming, 5 => PlaybackState::Stopping, _ => PlaybackState::Stopped };
+    sh.set_state(s);
+    assert!(sh.state() == s, "C03.3a: the handle reports exactly the state the sound stored");
+    kani::cover!(s == PlaybackState::WaitingToResume);
+}
